@@ -883,8 +883,10 @@ def elementwise(kind, v, extra=None):
         return Val(v.axes, [])
     if kind in ("Sqrt",) and len(nt) == 1 and not nt[0][1].f and nt[0][0].is_one():
         return Val(v.axes, [(D(1), Net())])
-    if kind in ("Sqrt", "Tanh", "Abs", "Sign") and not nt:
-        return Val(v.axes, [])
+    if kind in ("Sqrt", "Tanh", "Abs", "Sign", "Relu", "Ne0", "Gt0", "Lt0") and not nt:
+        return Val(v.axes, [], kind="bool" if kind.endswith("0") else v.kind)
+    if kind in ("Ge0", "Le0", "Eq0") and not nt:
+        return Val(v.axes, [(D(1), Net())], kind="bool")
     if kind == "Recip" and len(nt) == 1 and not nt[0][1].f and nt[0][0].is_const():
         return Val(v.axes, [(D(1) / nt[0][0], Net())])
     if kind == "IsFinite":
@@ -1236,6 +1238,67 @@ def simplify(coef, net, free):
                 elif rel == "disjoint":
                     return None
                 break
+            if changed:
+                break
+        if changed:
+            continue
+        # ---- composition of embeddings:  sum_a E:o1|l1|t1[i,a] E:o2|l2|l1[a,b] = E:o1+o2|l2|t1[i,b]
+        for i1, (h1, x1) in enumerate(f):
+            if H[h1].kind != "E" or len(x1) != 2:
+                continue
+            a_ = x1[1]
+            if a_ in free or cnt[a_] != 2:
+                continue
+            for i2, (h2, x2) in enumerate(f):
+                if i2 == i1 or H[h2].kind != "E" or x2[0] != a_:
+                    continue
+                o1, l1, t1 = H[h1].extra
+                o2, l2, t2 = H[h2].extra
+                if t2 != l1:
+                    continue
+                hn = seg_head(o1 + o2, l2, t1)
+                f = [g for k, g in enumerate(f) if k not in (i1, i2)] + [(hn, (x1[0],) + tuple(x2[1:]))]
+                changed = True
+                break
+            if changed:
+                break
+        if changed:
+            continue
+        # ---- a lone embedding whose large index is summed:  sum_i E[i,a] = 1  for every a
+        for i1, (h1, x1) in enumerate(f):
+            if H[h1].kind != "E":
+                continue
+            v = x1[0]
+            if v in free or cnt[v] != 1:
+                continue
+            del f[i1]
+            if len(x1) == 2 and x1[1] not in free and cnt[x1[1]] == 1:
+                coef = coef * ST.size[x1[1]]
+            changed = True
+            break
+        if changed:
+            continue
+        # ---- two embeddings sharing a large index that stays (free, or used elsewhere): E[i,a] E[i,b] = E[i,a] delta[a,b]; disjoint -> 0
+        for i1, (h1, x1) in enumerate(f):
+            if H[h1].kind != "E":
+                continue
+            v = x1[0]
+            if v not in free and cnt[v] == 2:
+                continue
+            for i2, (h2, x2) in enumerate(f):
+                if i2 <= i1 or H[h2].kind != "E" or x2[0] != v:
+                    continue
+                rel = _seg_relation(h1, h2)
+                if rel == "same":
+                    rest = [g for k, g in enumerate(f) if k != i2]
+                    if len(x1) == 2:
+                        rest.append(("delta", (x1[1], x2[1])))
+                    f = rest
+                    changed = True
+                elif rel == "disjoint":
+                    return None
+                if changed:
+                    break
             if changed:
                 break
         if changed:
